@@ -511,6 +511,7 @@ impl Registry {
                     write!(sdl, "extend ").ok();
                 }
                 write!(sdl, "interface {}", name).ok();
+                self.write_implements(sdl, name);
 
                 if options.federation {
                     if let Some(keys) = keys {
@@ -534,8 +535,6 @@ impl Registry {
                 for directive in directive_invocations {
                     write!(sdl, " {}", directive.sdl()).ok();
                 }
-
-                self.write_implements(sdl, name);
 
                 writeln!(sdl, " {{").ok();
                 Self::export_fields(sdl, fields.values(), options);
